@@ -477,8 +477,15 @@ class Folder:
             return {ast.Lt: a < b, ast.LtE: a <= b, ast.Gt: a > b, ast.GtE: a >= b}[type(op)]
         raise Refuse("ordering comparison on non-numbers")
 
+    _CMPSYM = {ast.Lt: "<", ast.LtE: "<=", ast.Gt: ">", ast.GtE: ">=", ast.Eq: "==", ast.NotEq: "!="}
+
     def e_Compare(self, n, env):
         left = self.ev(n.left, env)
+        if self.symbolic and len(n.ops) == 1 and type(n.ops[0]) in self._CMPSYM:
+            right = self.ev(n.comparators[0], env)
+            if (isinstance(left, (Sym, Opaque)) or isinstance(right, (Sym, Opaque))) and left is not None and right is not None \
+                    and not (isinstance(left, Opaque) and left.tag == "callable") and not (isinstance(right, Opaque) and right.tag == "callable"):
+                return Sym(self._CMPSYM[type(n.ops[0])], [left, right])
         for op, c in zip(n.ops, n.comparators):
             right = self.ev(c, env)
             if not self._cmp(op, left, right):
@@ -533,7 +540,7 @@ class Folder:
         raise Refuse("subscript of unknown")
 
     def e_Attribute(self, n, env):
-        if self.symbolic and isinstance(n.value, ast.Name) and n.value.id in ("np", "numpy", "math") and n.value.id not in env:
+        if self.symbolic and isinstance(n.value, ast.Name) and n.value.id in ("np", "numpy", "math", "operator") and n.value.id not in env:
             return Opaque("callable", f"{n.value.id}.{n.attr}")
         v = self.ev(n.value, env) if not (isinstance(n.value, ast.Name) and n.value.id in ("np", "numpy", "math")) else None
         if isinstance(v, Arr) and n.attr == "shape":
@@ -697,6 +704,10 @@ class Folder:
     def c_isinstance(self, a, kw):
         v, t = a
         tags = t if isinstance(t, tuple) else (t,)
+        if isinstance(v, Obj) and "__class__" in v.fields and all(isinstance(tg, Opaque) and tg.tag == "callable" for tg in tags):
+            return any(tg.label.split(".")[-1] == v.fields["__class__"] for tg in tags)
+        if isinstance(v, Opaque) and all(isinstance(tg, Opaque) and tg.tag == "callable" for tg in tags):
+            return any(tg.label.split(".")[-1] == v.tag.split(".")[-1] for tg in tags)
         vt = type_tag_of(v)
         for tg in tags:
             if not isinstance(tg, TypeTag):
@@ -994,6 +1005,9 @@ class Folder:
                 self.assign(tt, vv, env)
         elif isinstance(t, ast.Attribute):
             o = self.ev(t.value, env)
+            if self.symbolic and isinstance(o, (Sym, Opaque)):
+                self.trace.append(Sym("setattr", [o, t.attr, v]))
+                return
             if not isinstance(o, Obj):
                 raise Refuse("attribute store on non-object")
             o.fields[t.attr] = v
